@@ -1,4 +1,5 @@
 import Poulpy.Lemmas.GadgetExec
+import Poulpy.Lemmas.KsNoise
 import Mathlib.Algebra.Polynomial.Div
 /-!
 `Ks.ι N` is a bijection between coefficient lists of length `N` and `ℤ[X]/(X^N+1)`.
@@ -77,5 +78,38 @@ theorem ι_surjective {N : Nat} (hN : 0 < N) (r : R N) : ∃ p : Poly, p.length 
   exact ⟨-(g /ₘ (X ^ N + 1 : ℤ[X])), by
     have := modByMonic_add_div g (q := (X ^ N + 1 : ℤ[X]))
     linear_combination this⟩
+
+
+theorem getD_polyAdd' (a b : Poly) (h : a.length = b.length) (t : Nat) : (polyAdd a b).getD t 0 = a.getD t 0 + b.getD t 0 := by
+  simp only [polyAdd, List.getD_eq_getElem?_getD, List.getElem?_zipWith]
+  by_cases ht : t < a.length
+  · have ht' : t < b.length := h ▸ ht
+    simp [List.getElem?_eq_getElem ht, List.getElem?_eq_getElem ht']
+  · have ht' : ¬ t < b.length := h ▸ ht
+    simp [List.getElem?_eq_none (Nat.le_of_not_lt ht), List.getElem?_eq_none (Nat.le_of_not_lt ht')]
+
+theorem getD_polyScale' (c : Int) (a : Poly) (t : Nat) : (polyScale c a).getD t 0 = c * a.getD t 0 := by
+  simp only [polyScale, List.getD_eq_getElem?_getD, List.getElem?_map]
+  cases a[t]? <;> simp
+
+/-- **from `ℤ[X]/(X^N+1)` back to coefficients**: a relation `A·ι P = C·ι Z + ι E + M·Q` between classes of lists of length `N`
+(with an arbitrary ring element `Q`, the unnamed multiple of the torus modulus of the composed theorems) holds coefficient by
+coefficient with an integer list `q` in place of `Q` -/
+theorem ring_to_coeff {N : Nat} (hN : 0 < N) (P Z E : Poly) (hP : P.length = N) (hZ : Z.length = N) (hE : E.length = N)
+    (A C M : Int) (Q : R N) (h : (A : R N) * ι N P = (C : R N) * ι N Z + ι N E + (M : R N) * Q) :
+    ∃ q : Poly, q.length = N ∧ ∀ t, A * P.getD t 0 = C * Z.getD t 0 + E.getD t 0 + M * q.getD t 0 := by
+  obtain ⟨q, hq, rfl⟩ := ι_surjective hN Q
+  refine ⟨q, hq, ?_⟩
+  have e : ι N (polyScale A P) = ι N (polyAdd (polyAdd (polyScale C Z) E) (polyScale M q)) := by
+    rw [ι_add N _ _ (by simp [polyScale, hZ, hE, hq]), ι_add N _ _ (by simp [polyScale, hZ, hE]), ι_polyScale, ι_polyScale, ι_polyScale]
+    exact h
+  have := ι_injective hN (by simp [polyScale, hP]) (by simp [polyScale, hZ, hE, hq]) e
+  intro t
+  have ht := congrArg (fun l => l.getD t 0) this
+  rw [getD_polyScale', getD_polyAdd' _ _ (by simp [polyScale, hZ, hE, hq]), getD_polyAdd' _ _ (by simp [polyScale, hZ, hE]),
+    getD_polyScale', getD_polyScale'] at ht
+  exact ht
+
+theorem two_pow_cast (N k : Nat) : (2 : R N) ^ k = (((2 : Int) ^ k : Int) : R N) := by push_cast; rfl
 
 end Ks
